@@ -262,6 +262,8 @@ pub proof fn lemma_g3_lossless(b: Seq<u8>, events: Seq<MarkEvent>, leaves: Seq<S
 ///   leaves = (LuaTreeBuilder::new(text, events, ..).build(); .finish()).leaves()
 /// Hypotheses marked PROVED are the verified top-level contracts of the three units (stated as implications whose
 /// premises — the inter-unit assumptions — are discharged HERE); the ones marked ASSUMED are proved by no unit.
+/// `events_ok(events)` (precondition of `build`) is no longer a free hypothesis: it is the conclusion of H-L2ev, whose premise
+/// `tokens_ok(toks)` is discharged by G1.
 pub proof fn theorem_lossless(text: &str, toks: Seq<LuaTokenData>, events: Seq<MarkEvent>, doc: bool, leaves: Seq<SourceRange>)
     requires
         // H-LEN   ASSUMED (std: a &str is at most isize::MAX bytes; trusted in c01_reader as precondition of Reader::new)
@@ -274,13 +276,19 @@ pub proof fn theorem_lossless(text: &str, toks: Seq<LuaTokenData>, events: Seq<M
         l2::tokens_ok(toks) ==> l2::emits(l2::eaten(events), l2::ranges(toks), doc),
         // H-DOC   ASSUMED (doc mode only): the EatToken ranges of the re-lexed doc tokens start on char boundaries
         doc ==> doc_starts_on_boundaries(text.spec_bytes(), l2::eaten(events)),
-        // H-EV    ASSUMED preconditions of LuaTreeBuilder::build (c01_green): shape of the event list
-        l3::events_ok(events),
+        // H-L2ev  PROVED by c01_parser (parse_chunk `ensures l3::events_ok(final(p).events@)`, label C02.events-ok-preserved; same premise
+        //         as H-L2; `l3::events_ok` there is this very text, units/c01_green/iface.rs pasted into its `mod l3`): proved for the marker
+        //         API (mark, push_node_end, Marker::{set_kind,complete,undo}, CompleteMarker::precede) and the driver (init, bump,
+        //         set_current_token_kind, parse_trivia_tokens, parse_comments, parse_chunk); modulo the ASSUMED contracts of
+        //         LuaDocParser::parse and parse_stats, which include "preserves events_ok" (they reach `events` only through the proved API)
+        l2::tokens_ok(toks) ==> l3::events_ok(events),
+        // H-PAR   ASSUMED precondition of LuaTreeBuilder::build (c01_green): node ends match node starts (depends on the unextracted grammar)
         l3::parents_ok(events),
         // H-L3    PROVED by c01_green (LuaTreeBuilder::build + finish), modulo the ASSUMED rowan contract L4 (`leaves()`)
         (l3::ranges_ok(text, l3::eaten(events)) && l3::events_ok(events) && l3::parents_ok(events)) ==> leaves == l3::eaten(events),
     ensures
         l2::tokens_ok(toks),
+        l3::events_ok(events), /*@C01.compose.events-ok-from-parser-contract*/
         l3::ranges_ok(text, l3::eaten(events)),
         leaves == l2::eaten(events),
         l2::chain(leaves, 0, text.spec_bytes().len() as int),
